@@ -90,6 +90,10 @@ def run(unit, em):
                 records_elem = any(x['k'] == 'CXXMemberCallExpr' and not x.get('const') and x.get('inrepo') and
                                    (strip(x.get('obj')) is None or (strip(x.get('obj')) or {}).get('k') == 'CXXThisExpr')
                                    for x in walk(lp['body'], lambdas=False))
+                # ... or collects into an out-parameter (`pre.push_back(block)` in SimulationEngine::buildPre)
+                records_elem = records_elem or any(x['k'] == 'CXXMemberCallExpr' and method_name(x) in ('push_back', 'emplace_back', 'insert', 'emplace') and
+                                                   (strip(x.get('obj')) or {}).get('k') == 'DeclRefExpr' and (strip(x.get('obj')) or {}).get('dk') == 'param'
+                                                   for x in walk(lp['body'], lambdas=False))
             else:
                 # value-returning builders (static operations): the loop records into a local result automaton / map
                 records_elem = any(x['k'] == 'CXXMemberCallExpr' and not x.get('const') and x.get('inrepo') and
